@@ -813,6 +813,8 @@ func (it *interp) blockErr(e *gast.Expr, hashOff, at int, rule *gast.Rule) {
 		it.addErr(at, rule, "SE"+strconv.Itoa(e.Code.ID), "slice", false)
 	case 5:
 		it.addErr(at, rule, mon.NestedErrText, "nested", false)
+	case 6:
+		it.addErr(at, rule, "E"+strconv.Itoa(e.Code.ID)+"@"+strconv.Itoa(len(it.glog)), "own", false)
 	}
 }
 
